@@ -848,7 +848,7 @@ func runKind(c *hx.Ctx, kind string) {
 		wide := r.Chance(1, 8)
 		v := genMembers(r, p, wide)
 		if wide {
-			c.Note("members:type>=4(out-of-domain)")
+			c.Note("members:type>=4(finding)")
 		}
 		if len(v) >= 2 {
 			c.NonTrivial()
@@ -1284,15 +1284,24 @@ func corpus(c *hx.Ctx) {
 			n := d.Unmarshal(pathTN, b)
 			return n, rRefs(d)
 		})
+	// finding member-type-wide: a member of type collection (5) comes back as type path (1) with role 5 instead of 4
+	ms := compact.Members{{Type: b6.FeatureTypeCollection, Role: 4, ID: compact.Reference{}}}
+	roundTrip(c, "members", "0", rMembers(ms), nil,
+		func(b []byte) int { return ms.Marshal(0, b) },
+		func(b []byte) (int, string) {
+			var d compact.Members
+			n := d.Unmarshal(0, b)
+			return n, rMembers(d)
+		})
 	c.NonTrivial()
 }
 
 func main() {
 	hx.Main(hx.Family{
 		Name: "c11",
-		Rule: "case n exercises record kind kinds[n mod " + i(len(kinds)) + "] (ref refs ll lls mixed bits int tags members ints agr agl agm pll geom area path cpoint fpoint prefs relation nss str nsi nsis plh tokenmap mtags) with 3 values: marshal with the real code, append random trailing bytes, unmarshal into a fresh or (kind!) an already used receiver; reference values from Uint64Edge/near the previous one, primaries and namespaces from a small pool so that primary and explicit forms both occur, int32 edges, list lengths 0/1/around 8/up to 35, ints up to the EncodeValueType/role limits (marshal panics are compared too); 1 in 8 mixed lists and member lists are outside the property's domain (both halves set / member type >= 4) and only compared with the model; non-trivial = a list-carrying record with >= 2 elements or a composite record; distinct = by hash of the op text",
+		Rule: "case n exercises record kind kinds[n mod " + i(len(kinds)) + "] (ref refs ll lls mixed bits int tags members ints agr agl agm pll geom area path cpoint fpoint prefs relation nss str nsi nsis plh tokenmap mtags) with 3 values: marshal with the real code, append random trailing bytes, unmarshal into a fresh or (kind!) an already used receiver; reference values from Uint64Edge/near the previous one, primaries and namespaces from a small pool so that primary and explicit forms both occur, int32 edges, list lengths 0/1/around 8/up to 35, ints up to the EncodeValueType/role limits (marshal panics are compared too); 1 in 8 mixed lists are outside the property's domain (an element with both halves set) and only compared with the model, 1 in 8 member lists carry a member type >= 4 (finding member-type-wide); non-trivial = a list-carrying record with >= 2 elements or a composite record; distinct = by hash of the op text",
 		Quick:    4200,
-		Thorough: 400000,
+		Thorough: 200000,
 		Corpus:   corpus,
 		Case: func(c *hx.Ctx) {
 			kind := kinds[c.CaseNo%len(kinds)]
